@@ -233,7 +233,7 @@ class ProvRDFSerializer(Serializer):
             if rval is None:
                 prefix, iri, _ = graph.namespace_manager.compute_qname(literal)
                 ns = self.document.add_namespace(prefix, iri)
-                rval = pm.QualifiedName(ns, literal.replace(ns.uri, ""))
+                rval = pm.QualifiedName(ns, str(literal)[len(ns.uri) :])
             return rval
         else:
             # simple type, just return it
